@@ -559,9 +559,9 @@ def oracle_verdict(kind, meta, line):
 
 def sig_of(tag, kind, bad):
     """stable, specific signature of a bad-output violation"""
-    if kind == "setup-restart-big":
+    if kind == "setup-restart-big" or (tag or "").startswith("restart-interval-gt-65535"):
         return "restart-interval-gt-65535"
-    if kind == "blk-missing":
+    if kind == "blk-missing" or (tag or "").startswith("huff-missing-code"):
         return "huff-missing-code"
     return "bad-output:%s:%s" % (tag or kind, bad[:40])
 
@@ -651,10 +651,13 @@ def run_cases(ctx, cases, exes, drv, flavours):
         if bad:
             ctx.violation("accepted parameters give bad output: %s" % bad, rep, signature=sig_of(tag, kind, bad))
         expect = meta.get("expect") if isinstance(meta, dict) else None
-        if expect and not mpart.startswith("<crash>"):
-            got = "ok" if not (mpart.startswith("err ") or " ; err " in mpart) else mpart.split("err ")[-1].split()[0]
-            if got != expect:
-                ctx.violation("regression case %s: expected %s, got %s" % (tag, expect, got), rep, signature="regress:%s" % tag)
+        for fl in flavours:
+            mp = outs[fl][i].split(" # ")[0]
+            if expect and not mp.startswith("<"):
+                got = "ok" if not (mp.startswith("err ") or " ; err " in mp) else mp.split("err ")[-1].split()[0]
+                if got != expect:
+                    ctx.violation("regression case %s (%s build): expected %s, got %s" % (tag, fl, expect, got),
+                                  dict(rep, flavour=fl, impl=outs[fl][i][:600]), signature="regress:%s" % tag)
         for fl in flavours[1:]:
             o = outs[fl][i]
             if mpart.startswith("err BadDctCoef") and o.startswith("ok"):
